@@ -76,18 +76,21 @@ EXPECTED_INHOMOGENEOUS = {
     "sequence/sequence.py:PassSequence.solve_velocities_forward:cmp#1": "absolute stop test 0.01 on velocities",
 }
 # (the chord buffers of Profile.local_width / local_height are relative since /repo 9e95dfa: certified `arg` items, required)
-# Exceptions that exist only in the source form BEFORE the repair of the listed finding `tworun-spline-face-thin-fillet` has
-# landed in /repo (twin of `C11.acceptedPendingRepair`): all three are present with the accepted value, or none is and the
-# relative face test SPLINE_FACE_KEY is a certified decision with the term SPLINE_FACE_TERM (`_spline_face_form`, twin of
-# theorem `C11.spline_face_test_form`).  To be emptied once the repair is in /repo.
-PENDING_REPAIR = {
+# Exceptions that exist only in the source form BEFORE the repair of a listed finding has landed in /repo (twin of
+# `C11.acceptedPendingRepair`).  EMPTY: the repair of `tworun-spline-face-thin-fillet` is in /repo (53b0ef0); the three
+# absolute face tests of SplineGroove it used to hold (RETIRED_SPLINE_FACE_TESTS, twin of `C11.retiredSplineFaceTests`) are
+# reported like every other new absolute tolerance when they come back (revert of the repair, seeded change C11-2), and the
+# corpus case c11_finding_spline_thin_wire.json replays the effect.  The relative face test SPLINE_FACE_KEY must be a
+# certified decision with the term SPLINE_FACE_TERM (`_spline_face_form`, twin of theorem `C11.spline_face_test_form`).
+PENDING_REPAIR = {}
+EXPECTED_INHOMOGENEOUS.update(PENDING_REPAIR)
+RETIRED_SPLINE_FACE_TESTS = {
     "grooves/spline.py:SplineGroove.__init__:isclose#1": "np.isclose(first y, 0): absolute 1e-8 (acceptance of the contour)",
     "grooves/spline.py:SplineGroove.__init__:isclose#2": "np.isclose(last y, 0): absolute 1e-8 (acceptance of the contour)",
     "grooves/spline.py:SplineGroove.__init__:isclose#3":
         "np.isclose(y, 0) strips the face runs: absolute 1e-8 - a vertex less than 1e-8 above the face is a face vertex "
         "(bites for finely sampled fillets of thin-wire grooves described in metres: see notes/C11.md, finding 2)",
 }
-EXPECTED_INHOMOGENEOUS.update(PENDING_REPAIR)
 SPLINE_FACE_KEY = "grooves/spline.py:SplineGroove.__init__:cmp#3"
 SPLINE_FACE_TERM = '(.sub (.abs (.var "contour_points")) (.mul (.dec 1 9) (.var "contour_points")))'
 # the accepted items are accepted WITH THEIR VALUE: the translated term (Lean syntax) of each; a changed literal
@@ -109,9 +112,6 @@ EXPECTED_TERMS = {
     "grooves/generic_elongation.py:GenericElongationGroove._enumerate_contour_points:isclose#5": _ISCLOSE % ("z6", "z7", "z7"),
     "sequence/sequence.py:PassSequence.solve_velocities_backward:cmp#1": _STOP,
     "sequence/sequence.py:PassSequence.solve_velocities_forward:cmp#1": _STOP,
-    "grooves/spline.py:SplineGroove.__init__:isclose#1": _ISCLOSE0 % "contour_points",
-    "grooves/spline.py:SplineGroove.__init__:isclose#2": _ISCLOSE0 % "contour_points",
-    "grooves/spline.py:SplineGroove.__init__:isclose#3": _ISCLOSE0 % "contour_points",
 }
 # the absolute tolerance on a COORDINATE of numpy's np.isclose default (accepted for the junction tests of the generic
 # groove): spline contours whose vertices come closer than twice this to the face line in the smaller description form
@@ -235,7 +235,7 @@ def _report(ctx, data):
         have |= {"accepted:" + it.key for it in bad
                  if it.key in EXPECTED_INHOMOGENEOUS and pyexpr.lean_expr(it.expr) == EXPECTED_TERMS.get(it.key)}
         for k in req:
-            # `a | b`: one of the alternatives (the two source forms around a pending repair)
+            # `a | b`: one of the alternatives (the two source forms around a pending repair; none at present)
             if not any(alt.strip() in have for alt in k.split(" | ")):
                 ctx.tie_breaks.append(f"translator: required item {k} is no longer translated / certified")
     _spline_face_form(ctx, items, bad)
@@ -247,19 +247,18 @@ def _report(ctx, data):
 
 
 def _spline_face_form(ctx, items, bad):
-    """python-side twin of theorem C11.spline_face_test_form: the face test of SplineGroove is either the repaired relative
-    one (a certified decision with the pinned term, no pending exception in use) or all three absolute tests"""
-    pending = [it for it in bad if it.key in PENDING_REPAIR]
+    """python-side twin of theorem C11.spline_face_test_form: the face test of SplineGroove is the repaired relative one (a
+    certified decision with the pinned term) and none of the former absolute tests is back"""
+    old = [it for it in bad if it.key in RETIRED_SPLINE_FACE_TESTS]
     face = [it for it in items if it.key == SPLINE_FACE_KEY and it.ok and it.kind == "decision"]
     repaired = bool(face) and pyexpr.lean_expr(face[0].expr) == SPLINE_FACE_TERM
-    if repaired and not pending:
-        ctx.notes["spline_face_test"] = "relative (repaired source form)"
-    elif len(pending) == len(PENDING_REPAIR) and not repaired:
-        ctx.notes["spline_face_test"] = "np.isclose(y, 0), absolute 1e-8 (source form before the repair: listed finding)"
+    if repaired and not old:
+        ctx.notes["spline_face_test"] = "relative (repaired source form, /repo 53b0ef0)"
     else:
         ctx.tie_breaks.append(
-            "translator: the face test of SplineGroove.__init__ is in neither of the two known forms: "
-            f"{len(pending)} of the {len(PENDING_REPAIR)} absolute tests present, relative test {SPLINE_FACE_KEY} "
+            "translator: the face test of SplineGroove.__init__ is not the repaired relative one (fixed finding "
+            f"tworun-spline-face-thin-fillet): {len(old)} of the {len(RETIRED_SPLINE_FACE_TESTS)} former absolute tests "
+            f"np.isclose(y, 0) present, relative test {SPLINE_FACE_KEY} "
             + (f"translated as {pyexpr.lean_expr(face[0].expr)}" if face else "not found / not certified"))
 
 
